@@ -51,8 +51,10 @@ func th(d time.Duration) tierCfg { return tierCfg{runsPerWorker: 1 << 40, worker
 var props = map[string]propCfg{
 	"C02": {quick: q(4000, 8), thorough: th(10 * time.Minute)},
 	"C03": {quick: q(150, 8), thorough: th(20 * time.Minute)},
+	"C05": {quick: q(1500, 8), thorough: th(15 * time.Minute)},
 	"C07": {quick: q(3000, 8), thorough: th(15 * time.Minute)},
 	"C08": {quick: q(3000, 8), thorough: th(15 * time.Minute)},
+	"C09": {quick: q(600, 8), thorough: th(15 * time.Minute)},
 	"C14": {quick: q(40, 8), thorough: th(20 * time.Minute)},
 	"C15": {quick: q(30, 8), thorough: th(20 * time.Minute)},
 	"C16": {quick: q(150, 8), thorough: th(20 * time.Minute)},
